@@ -805,29 +805,6 @@ class COOSubjac(SparseSubjac):
                     self.info['uncovered_threshold'] = uncovered_threshold
                 self.info['uncovered_nz'].extend(list(zip(nzs, icol * np.ones_like(nzs))))
 
-    def set_dtype(self, dtype):
-        """
-        Set the dtype of the subjacobian.
-
-        Parameters
-        ----------
-        dtype : dtype
-            The type to set the subjacobian to.
-        """
-        if dtype.kind == self.info['val'].dtype.kind:
-            return
-
-        self._in_view = None
-        self._out_view = None
-        self._res_view = None
-
-        if dtype.kind == 'f':
-            self.info['val'] = np.ascontiguousarray(self.info['val'].real, dtype=dtype)
-        elif dtype.kind == 'c':
-            self.info['val'] = np.asarray(self.info['val'], dtype=dtype)
-        else:
-            raise ValueError(f"Subjacobian {self.key}: Unsupported dtype: {dtype}")
-
 
 class CSRSubjac(SparseSubjac):
     """
@@ -1153,6 +1130,29 @@ class OMCOOSubjac(COOSubjac):
         randval += 1.0
 
         return randval
+
+    def set_dtype(self, dtype):
+        """
+        Set the dtype of the subjacobian.
+
+        Parameters
+        ----------
+        dtype : dtype
+            The type to set the subjacobian to.
+        """
+        if dtype.kind == self.info['val'].dtype.kind:
+            return
+
+        self._in_view = None
+        self._out_view = None
+        self._res_view = None
+
+        if dtype.kind == 'f':
+            self.info['val'] = np.ascontiguousarray(self.info['val'].real, dtype=dtype)
+        elif dtype.kind == 'c':
+            self.info['val'] = np.asarray(self.info['val'], dtype=dtype)
+        else:
+            raise ValueError(f"Subjacobian {self.key}: Unsupported dtype: {dtype}")
 
     def set_val(self, val):
         """
